@@ -430,7 +430,6 @@ def test_parameters(eng):
     'SELECT * FROM t NATURAL JOIN child',
     'WITH x AS (SELECT 1) SELECT * FROM x',
     'SELECT id FROM t WHERE name REGEXP "a"',
-    'INSERT IGNORE INTO t (id) VALUES (1)',
     'REPLACE INTO t (id) VALUES (1)',
     'DELETE t FROM t JOIN child ON child.t_id = t.id',
     'UPDATE t SET v = 1 ORDER BY id LIMIT 1',
@@ -469,3 +468,9 @@ def test_all_live_routines_compile():
     e = Engine(seed=0)
     for (kind, name) in list(e.schema.routines):
         e.compiled(kind, name)
+
+
+def test_insert_ignore_skips_duplicate_rows(eng):
+    r = eng.s.execute("INSERT IGNORE INTO u (k, tok, n) VALUES ('g', 0, 1), ('g', 0, 2), ('g', 1, 3)")
+    assert r.rowcount == 2
+    assert one(eng, "SELECT SUM(n) FROM u WHERE k = 'g'") == 4
